@@ -12,7 +12,7 @@ import sys
 
 wt, sid, prop, what, needs, confirm = sys.argv[1:7]
 checks = sys.argv[7:]
-V = "/verif"
+V = os.environ.get("VERIF_ROOT", "/verif")
 MUT = os.environ.get("MUTREPO", "/root/work/mutrepo")      # a scratch worktree of /repo: /repo itself is never patched
 if not os.path.isdir(MUT):
     subprocess.run(["git", "-C", "/repo", "worktree", "add", "-q", "--detach", MUT, "HEAD"], check=True)
